@@ -1257,6 +1257,19 @@ def base_ext_share(prog: Program) -> RuleResult:
                         mod,
                         allowed,
                     )
+                elif (
+                    isinstance(inner, ast.Call)
+                    and isinstance(inner.func, ast.Attribute)
+                    and inner.func.attr in ("traverse", "iter_descendants", "get_descendants", "iter_leaves", "get_leaves")
+                    and p_tree not in {n.id for n in ast.walk(inner.func.value) if isinstance(n, ast.Name)}
+                ):
+                    res.fail(
+                        construct,
+                        f"the extended variant offers `{short(body)}`: the clade of one particular node, not every node "
+                        "of the species tree - placements above that node (and in other lineages) are never tried",
+                        mod,
+                        allowed,
+                    )
                 else:
                     raise AnalysisError(f"{modname}:{fname}: species enumerator `{short(body)}` not recognised")
             else:
